@@ -7,6 +7,7 @@ budget=${1:-20}; glob=${2:-*}
 cd /verif
 for d in seeded/$glob/; do
   id=$(basename $d); [ "$id" = benign ] && continue; prop=${id%-*}
+  if [ -f $d/out_of_scope ]; then echo "$id: not claimed ($(cat $d/out_of_scope))"; continue; fi
   props="$prop"; [ -f $d/extra_props ] && props="$props $(cat $d/extra_props)"
   res=MISSED
   for p in $props; do
